@@ -5,7 +5,7 @@ import os
 from ..lib import cbuild, tlc
 from ..lib.common import workdir, rmworkdir, seed, log, MachineryError
 from ..lib.report import Report
-from ..drivers import pagedrv
+from ..drivers import pagedrv, replaylib
 from . import c05
 
 PID = 'C08'
@@ -103,3 +103,42 @@ def run(tier):
                 '(impl, action kind, port/region, instruction variant)')
     rmworkdir('c08')
     return rep.finish()
+
+
+def replay(path):
+    """./check C08 --replay replays/C08-n.json : drive the recorded action sequence / single step / instruction + interrupt through
+    the implementations of the current tree again, judged by PagingTrace / StepCases (c08 mode) / MachineTrace (c08 mode)."""
+    d, rp = replaylib.load(path, PID)
+    wd = workdir('replay-c08')
+    rep = Report(PID, 'replay')          # only collects what the judges say; never finished (no evidence written)
+    found = []
+    if 'acts' in rp:
+        replaylib.need(rp, path, 'impl', 'pre', 'acts', 'variants')
+        cbuild.preload()
+        if rp['impl'] == 'skmem':
+            t = pagedrv.skmem_trace(rp['pre'], rp['acts'])
+        elif rp['impl'] in pagedrv.IMPLS:
+            t = pagedrv.run_trace(rp['impl'], rp['pre'], rp['acts'], rp['variants'])
+        else:
+            raise MachineryError('unusable replay file %s: unknown implementation %r' % (path, rp['impl']))
+        for _, l, clause in judge_traces(rep, [t], wd, 'PagingTrace'):
+            a = t['acts'][l - 1]
+            found.append('paging:%s:%s:%s:%s: pre o7ffd=%d, action %d %s: observed %s' % (t['impl'], a[0], t['variants'][l - 1], clause, t['pre'], l, a,
+                                                                                        t['obs'][l - 1]))
+    elif rp.get('kind') == 'int-push':
+        from . import c06
+        t, _ = c06.rerun(rp, path)
+        for _, l, clause in c06.judge_runs(rep, [t], wd, 'MachineTrace[int-push]'):
+            found.append('int-push:%s:sp=%d:%s: %s at PC=%d + frame interrupt: observed %s' % (t['pair'], t['sp'], clause, t['slot'], t['r0'][24], t['obs'][0]))
+    elif 'r' in rp and 'ov' in rp:
+        c = c05.rerun_step(rp, path)
+        for _, clause in c05.judge_steps(rep, [c], wd, mode='c08'):
+            impl, _, cl = clause.partition(':')
+            found.append('step:%s:%s:%s: single step %s on %s' % (c['key'].split('/')[0], impl, cl, c['key'], impl))
+    elif 'tlc_output_tail' in rp:
+        r = tlc.model_check('paging', 'Paging128', 'Paging128_mc.cfg', timeout=1800)
+        found = ['model:Paging128_mc:%s' % inv for inv in r.violated]
+    else:
+        raise MachineryError('unusable replay file %s: not a paging trace, single step or interrupt case' % path)
+    rmworkdir('replay-c08')
+    return replaylib.verdict(PID, path, found)
